@@ -397,6 +397,35 @@ def c14(hist, stats=None):
     return uniq
 
 
+def c14_rerun_implications(hist):
+    """re-run cases, every job, every quiescent point of both runs and after
+    them: whatever a job carries over from the first run, "is_done implies
+    is_running implies is_scheduled" and "is_idle iff not scheduled" are
+    statements about one instant and hold at each of them"""
+    run = hist.run
+    samples = [(seq, t, snap) for seq, t, snap in run.polls]
+    samples.append((run.seq_returned, None, run.post))
+    for seq, _, snap in samples:
+        for nid, tup in sorted(snap.items()):
+            if tup[0] == 'error':
+                continue
+            idle, sched, running, done = tup[:4]
+            msg = None
+            if bool(idle) == bool(sched):
+                msg = "is_idle()={} and is_scheduled()={}".format(idle, sched)
+            elif running and not sched:
+                msg = "is_running() although not is_scheduled()"
+            elif done and not running:
+                msg = "is_done() although not is_running()"
+            if msg:
+                return [Violation(
+                    'C14', 'predicate-implication', 'all-jobs',
+                    "{} at seq {}: {} [idle={} scheduled={} running={} "
+                    "done={}]".format(nid, seq, msg, idle, sched, running,
+                                      done))]
+    return []
+
+
 def c14_new_jobs(hist, new_ids):
     """re-run cases: what the predicates say, after the second run, about the
     jobs that were added between the two runs (the others carry what the
